@@ -291,6 +291,118 @@ theorem aug_inline_decode_any_valid {Y : Type} (xdec : XDec Y) (zero : Y)
   rw [mapInnerAug_toCell xdec zero C pay xpay hx n hn t hdec n [] (n + 1) hv (by simp) (Nat.lt_succ_self n)]
   simp
 
+/-! ## No silent corruption: arbitrary slices, colliding keys, the typed layer -/
+
+/-- Soundness of Marshal for ANY slice of `n`-bit keys, duplicates allowed (e.g. two typed keys outside their domain that
+truncate to the same bits): whenever Marshal succeeds the keys were pairwise distinct and Unmarshal returns exactly the
+given entries in ascending key-bit order. Colliding keys therefore make Marshal fail; they never overwrite or drop
+OTHER entries. -/
+theorem marshal_sound (C : Codec V) (pay : V → List Bool × List Cell) (n : Nat) (kvs : List (Key × V))
+    (hw : ∀ kv ∈ kvs, kv.1.length = n) (hfit : ∀ kv ∈ kvs, Fits C pay n kv.2) (c : Cell)
+    (h : marshalE C n kvs = .ok c) :
+    (keysOf kvs).Nodup ∧ unmarshalE C n c = .ok (sortKV kvs) := by
+  have hnd : (keysOf kvs).Nodup := by
+    cases kvs with
+    | nil => simp [keysOf]
+    | cons x rest =>
+      have hmax : maxKeyLen (x :: rest) = n := maxKeyLen_eq n _ (by simp) hw
+      simp only [marshalE, marshal, List.isEmpty_cons, Bool.false_eq_true, if_false, hmax] at h
+      cases he : encodeMap C (n + 1) (sortKV (x :: rest)) (n : Int) with
+      | ok r =>
+        have hp := sortKV_perm (x :: rest)
+        have hs := encodeMap_ok_strict C (n + 1) n _ r (fun kv hkv => hw kv (hp.mem_iff.mp hkv))
+          (sortKV_weak n _ hw) he
+        exact (hp.map Prod.fst).nodup (sortedBy_nodup lexLt lexLt_irrefl _ hs)
+      | err e => rw [he] at h; cases h
+      | panic p => rw [he] at h; cases h
+  refine ⟨hnd, ?_⟩
+  obtain ⟨c', h1, h2, _⟩ := (hashmapE_roundtrip C pay n kvs hnd hw hfit).2
+  rw [h1] at h
+  cases h
+  exact h2
+
+/-- the typed layer, integer keys inside their domain: `WriteInt` writes the two's complement encoding the model uses -/
+theorem encIntKey_in_range (n : Nat) (v : Int) (hn : 2 ≤ n) (hlo : -(2 ^ (n - 1) : Int) ≤ v) (hhi : v < (2 ^ (n - 1) : Int)) :
+    ∃ k, encIntKey n v = .ok k ∧ k.length = n ∧ Bits.bitsToInt k = v :=
+  encIntKey_inRange n v hn hlo hhi
+
+/-- `NewHashmapE(keys, values)` with as many values as keys is the list-of-pairs dictionary of the model; with fewer
+values than keys Marshal is an error (never a wrong tree) and Items() panics with an index error -/
+theorem slices_agree (C : Codec V) (n : Nat) (keys : List Key) (values : List V) :
+    (values.length = keys.length → marshalSlicesE C n keys values = marshalE C n (keys.zip values) ∧
+      itemsSlices keys values = .ok (keys.zip values)) ∧
+    (values.length < keys.length → (marshalSlicesE C n keys values).isErr = true ∧
+      (itemsSlices keys values).isPanic = true) :=
+  ⟨slices_eq C n keys values, slices_short C n keys values⟩
+
+/-- BitsN keys: `bytes.Compare` on the Go byte arrays is exactly the ascending bit order of the encoded keys, so for
+these types `Put`'s slice order is already the order `encodeMap` needs -/
+theorem bytes_compare_is_bit_order (a b : List UInt8) (h : a.length = b.length) :
+    ltBytes a b = lexLt (Bits.bytesToBits a) (Bits.bytesToBits b) :=
+  ltBytes_eq_lexLt a b h
+
+/-! ## Cell capacity -/
+
+/-- the size part of `Fits` is monotone in the key width -/
+theorem size_fits_mono (n N b : Nat) (hn : n ≤ N) (h : b + N + 2 + minBitsRequired N ≤ 1023) :
+    b + n + 2 + minBitsRequired n ≤ 1023 := by
+  have := minBits_mono hn
+  omega
+
+/-- Marshal never overflows a cell for the key types the library ships: with any key width up to 512 bits (Bits512 is the
+widest) every value of at most 499 bits and 4 refs fits; with integer keys (≤ 64 bits) values up to 950 bits fit; with
+256-bit keys up to 756. (1023 = 2 + bitlength n + n + value bits is attained, so these are the exact limits.) -/
+theorem encode_never_overflows (C : Codec V) (pay : V → List Bool × List Cell) (n : Nat) (lt : Key → Key → Bool)
+    (ops : List (Key × V)) (hnd : (keysOf ops).Nodup) (hw : ∀ kv ∈ ops, kv.1.length = n)
+    (hval : ∀ kv ∈ ops, C.enc kv.2 = .ok (pay kv.2) ∧ (pay kv.2).2.length ≤ 4 ∧ DecodesValue C pay kv.2 ∧
+      ((n ≤ 512 ∧ (pay kv.2).1.length ≤ 499) ∨ (n ≤ 256 ∧ (pay kv.2).1.length ≤ 756) ∨
+       (n ≤ 64 ∧ (pay kv.2).1.length ≤ 950))) :
+    ∃ c, marshalE C n (buildPut lt ops) = .ok c := by
+  have hfit : ∀ kv ∈ ops, Fits C pay n kv.2 := by
+    intro kv hkv
+    obtain ⟨he, hr, hd, hs⟩ := hval kv hkv
+    refine ⟨he, ?_, hr, hd⟩
+    rcases hs with ⟨h1, h2⟩ | ⟨h1, h2⟩ | ⟨h1, h2⟩
+    · exact size_fits_mono n 512 _ h1 (by have : minBitsRequired 512 = 10 := by decide
+                                          omega)
+    · exact size_fits_mono n 256 _ h1 (by have : minBitsRequired 256 = 9 := by decide
+                                          omega)
+    · exact size_fits_mono n 64 _ h1 (by have : minBitsRequired 64 = 7 := by decide
+                                         omega)
+  obtain ⟨c, h, _⟩ := build_encode_decode C pay n lt ops hnd hw hfit
+  exact ⟨c, h⟩
+
+/-! ## Dictionaries inside Merkle proofs (pruned subtrees) -/
+
+/-- Decoding a valid dictionary in which some subtrees are replaced by pruned-branch cells (what `mapInner` skips; a
+pruned root decodes as the empty dictionary) yields exactly the pairs of the un-pruned part, in order. -/
+theorem decode_pruned_valid (C : Codec V) (pay : V → List Bool × List Cell) (n : Nat) (hn : n < 2 ^ 64)
+    (p : PTree V) (hv : p.Valid n) (hdec : ∀ kv ∈ p.meaning, DecodesValue C pay kv.2) :
+    unmarshalE C n (wrapE (p.toCell pay n)) = .ok p.meaning := by
+  have h0 : ¬ ((0 : Nat) = tyLibrary) := by decide
+  have h1 : ¬ ((0 : Nat) = tyPruned) := by decide
+  have hmi := mapInner_ptoCell C pay n hn p hdec n [] (n + 1) hv (by simp) (Nat.lt_succ_self n)
+  cases p with
+  | pruned mask bits refs =>
+    have e : (Cell.mk tyPruned mask bits refs).ty = tyPruned := rfl
+    simp only [unmarshalE, wrapE, ty_ordinary, bits_ordinary, refs_ordinary, h0, if_false, PTree.toCell, e, if_true,
+      PTree.meaning]
+  | leaf l v =>
+    simp only [unmarshalE, wrapE, ty_ordinary, bits_ordinary, refs_ordinary, h0, if_false, unmarshal,
+      PTree.toCell, h1] at hmi ⊢
+    rw [hmi]; simp
+  | fork l lo hi =>
+    simp only [unmarshalE, wrapE, ty_ordinary, bits_ordinary, refs_ordinary, h0, if_false, unmarshal,
+      PTree.toCell, h1] at hmi ⊢
+    rw [hmi]; simp
+
+/-- …and relates to the full dictionary `t` the proof was cut from: the decoded pairs are a sublist (same order) of the
+full listing, and `Get k` on the decoded proof agrees with the full dictionary for every key whose path is not pruned —
+both for present keys (the value is revealed) and for absent ones (absence is revealed). -/
+theorem pruned_agrees_with_full (p : PTree V) (t : HTree V) (h : PTree.Prunes p t) (n : Nat) (hv : t.Valid n) :
+    p.Valid n ∧ p.meaning.Sublist t.meaning ∧ ∀ k, p.covers k = true → get p.meaning k = get t.meaning k :=
+  ⟨prunes_valid p t h n hv, prunes_sublist p t h, get_prunes p t h⟩
+
 /-! ## The defect repaired by `fix: Hashmap.MarshalTLB orders entries by their encoded key bits` (DESIGN §9 #10)
 
 `marshalUnsorted` is the encoder as it was before the repair: `encodeMap` applied to the slice order. The witness is
